@@ -22,11 +22,12 @@ const (
 	skDecStream  = "SkipDecoder/DefaultReader"
 	skBytesSkip  = "BytesSkipDecoder"
 	skReaderSkip = "ReaderSkipDecoder"
+	skTplCustom  = "SkipDecoderTpl/custom-buffer-reusing-iface"
 )
 
-var memSkippers = []string{skBinary, skBufBytes, skDecBytesR, skBytesSkip}
+var memSkippers = []string{skBinary, skBufBytes, skDecBytesR, skBytesSkip, skTplCustom}
 var streamSkippers = []string{skBufStream, skDecStream, skReaderSkip}
-var allSkippers = []string{skBinary, skBufBytes, skDecBytesR, skBytesSkip, skBufStream, skDecStream, skReaderSkip}
+var allSkippers = []string{skBinary, skBufBytes, skDecBytesR, skBytesSkip, skTplCustom, skBufStream, skDecStream, skReaderSkip}
 
 func isStreamSkipper(s string) bool { return s == skBufStream || s == skDecStream || s == skReaderSkip }
 
@@ -140,6 +141,17 @@ run:
 				}
 			}
 			d.Release()
+		case skTplCustom:
+			rs := &reuseSkipper{b: input}
+			err := thrift.NewSkipDecoderTpl(rs).Skip(thrift.TType(t), 64)
+			o.Err, o.OK = err, err == nil
+			o.N = rs.off
+			if o.OK && probeNext {
+				o.NextOK = true
+				if rs.off < len(input) {
+					o.NextByte = int(input[rs.off])
+				}
+			}
 		case skReaderSkip:
 			er = NewEnvReader(input, env)
 			d := thrift.NewReaderSkipDecoder(er)
